@@ -848,6 +848,13 @@ def run_impl(case):
                 fails.append(("C03", f"map {h}: find_resource() does not find resource {ids.get(id(i.resource), '?')} that its all_resources() reports", len(obs)))
                 continue
             same = [x for x in infos if x.resource is i.resource]
+            try:
+                f2 = m.find_resource(i.resource)          # asked again (a header generator, then a driver): the same answer
+                if (tuple(map(tuple, f2.path)), f2.start, f2.end, f2.width) != (tuple(map(tuple, f.path)), f.start, f.end, f.width):
+                    fails.append(("C03", f"map {h}: find_resource({ids.get(id(i.resource), '?')}) answers {f.start}..{f.end} the first time and "
+                                         f"{f2.start}..{f2.end} the second time", len(obs)))
+            except (KeyError, AssertionError):
+                pass
             if not any((tuple(map(tuple, f.path)), f.start, f.end, f.width) == (tuple(map(tuple, x.path)), x.start, x.end, x.width) for x in same):
                 fails.append(("C03", f"map {h}: find_resource({ids.get(id(i.resource), '?')}) → {tuple(map(tuple, f.path))} at {f.start}..{f.end}, "
                                      f"its all_resources() reports it at {[(tuple(map(tuple, x.path)), x.start, x.end) for x in same]}", len(obs)))
